@@ -181,6 +181,12 @@ def run(ctx):
         if g:
             rs = ctx.ret_values(g)
             ctx.ob("C03.G.spanning-constructors", g.key, "returns ….with_span(argument)", bool(rs) and all(re.match(r"^darling_core::error::Error::with_span\(.*, a1\)$", r) for r in rs), "returns %s" % [r[:120] for r in rs])
+    # adding sibling suggestions works on the error itself: what comes back is `self` (span, locations
+    # and all), never a rebuilt error
+    g = ctx.fn(E + "add_sibling_alts_for_unknown_field")
+    if g:
+        rs = ctx.ret_values(g)
+        ctx.ob("C03.G.sibling-alts-returns-same-error", g.key, "return self", bool(rs) and all(r == "self" for r in rs), "returns %s" % [r[:120] for r in rs])
     f = ctx.fn("darling_core::ast::data::Fields::<T>::with_span")
     if f:
         first_writer_wins(ctx, f, ctx.find_field_assigns(f, "span", 1), "Fields.span = Some(span)", r"Some\{a2\}$")
